@@ -1,5 +1,5 @@
 PROP = {
-    "proof_files": ["Proofs/GateMu.v", "Proofs/GateSrc.v", "Proofs/RecvLive.v", "Proofs/Recv.v", "Proofs/PathFs.v"],
+    "proof_files": ["Proofs/Gate.v", "Proofs/GateLive.v", "Proofs/GateMu.v", "Proofs/GateSrc.v", "Proofs/RecvLive.v", "Proofs/Recv.v", "Proofs/PathFs.v"],
     "gen_files": ["Gen/GateSrc.v", "Gen/Geometry.v", "Gen/C15.v"],
     "corr": ["C02"],
     "timeout": {"quick": 900, "thorough": 7200},
